@@ -8,6 +8,8 @@ Case lines:
      (container 0 Box / 1 &mut / 2 & / 3 Box + CArc context / 4 CArcSome / 5 clone of a shared CArcSome + CArc context) built from an identical value; see harness/prog/src/shapes.rs for the call codes.
  '102 <container> | call ; ..'  the same for traits with TYPE and LIFETIME parameters: one implementor of Store<u32>, Store<u64>, Store<Pod> and Named<'a, u32>, an opaque
      object per instantiation (harness/prog/src/generic.rs).
+ '105 <container> | call ; ..'  the traits the library itself makes CGlue-compatible (cglue::ext, built with the `futures` feature): Stream, Sink, Debug, Display, AsRef —
+     one stateful implementor, an opaque object per trait (harness/prog/src/ext.rs).
  '201 <ti> <generic> | methods'  the impl the REAL #[cglue_forward] generator emits for Fwd<O>, abstracted per method (present, same-named target, arguments passed
      through in order, result returned) and compared with coq/model/Glue.v gen_forward (theorem C01_forward).
  '104 <handle> | call ; ..'  #[cglue_forward]: the generated impl for Fwd<O> — Fwd(&mut T), Fwd(Box<T>), and opaque objects whose instance is a Fwd(&mut T)
@@ -42,11 +44,11 @@ def run_impl(lines):
 
 
 def model_line(l):
-    return "0 |" if l.startswith(("101 ", "102 ", "104 ")) else l
+    return "0 |" if l.startswith(("101 ", "102 ", "104 ", "105 ")) else l
 
 
 def compare(l, impl_rows, model_rows):
-    if l.startswith(("101 ", "102 ", "104 ")):
+    if l.startswith(("101 ", "102 ", "104 ", "105 ")):
         return True          # behavioural direct-vs-opaque runs: decided by the implementation-side monitor alone
     return impl_rows == model_rows
 
@@ -65,6 +67,9 @@ def gen_cases(rng, tier):
     c, d3 = G.cast_cases(rng, tier)
     e, d4 = G.generic_cases(rng.fork("generic"), tier)
     f, d5 = G.fwd_cases(rng.fork("fwd"), tier)
+    x, dx = G.ext_cases(rng.fork("ext"), tier)
+    f = f + x
+    d5.update(dx)
     g, d6 = G.fwd_ir_cases(rng.fork("fwdir"), tier)
     e = e + f + g
     d4.update(d5); d4.update(d6)
